@@ -382,14 +382,17 @@ func lockIntr(what string) intrinsic {
 }
 
 func atomicLoad(w *Worker, fr *frame, a []Value) (Value, bool) {
+	w.noteAtomic(a[0].(*Value), false)
 	return load(a[0].(*Value)), true
 }
 func atomicStore(w *Worker, fr *frame, a []Value) (Value, bool) {
+	w.noteAtomic(a[0].(*Value), true)
 	store(a[0].(*Value), a[1])
 	return nil, true
 }
 func atomicAdd(w *Worker, fr *frame, a []Value) (Value, bool) {
 	p := a[0].(*Value)
+	w.noteAtomic(p, true)
 	old := (*p).(Int)
 	d := a[1].(Int)
 	var nv Value
@@ -403,12 +406,14 @@ func atomicAdd(w *Worker, fr *frame, a []Value) (Value, bool) {
 }
 func atomicSwap(w *Worker, fr *frame, a []Value) (Value, bool) {
 	p := a[0].(*Value)
+	w.noteAtomic(p, true)
 	old := *p
 	*p = a[1]
 	return old, true
 }
 func atomicCAS(w *Worker, fr *frame, a []Value) (Value, bool) {
 	p := a[0].(*Value)
+	w.noteAtomic(p, true)
 	eq := w.valEq(*p, a[1])
 	if w.decide(eq, "atomic.CAS") {
 		*p = a[2]
